@@ -770,6 +770,11 @@ func main() {
 		genStage2Table(load(os.Args[1]), os.Args[2])
 		return
 	}
+	if len(os.Args) == 4 && os.Args[3] == "gosrc" {
+		// Go → GoSem printer for the selected functions (child process, same reason)
+		genGoSrc(load(os.Args[1]), os.Args[2])
+		return
+	}
 	if len(os.Args) != 3 {
 		die("usage: extract <repo dir> <out dir>")
 	}
@@ -787,6 +792,12 @@ func main() {
 		reason := strings.TrimSpace(string(msg))
 		writeIfChanged(filepath.Join(out, "Stage2Table.lean"), header+"namespace SJ.Generated\n\n/-- the translator of `unifiedMachine` refused the source -/\ndef stage2TableRefused : String := "+strconv.Quote(reason)+"\n\nend SJ.Generated\n")
 		fmt.Fprintln(os.Stderr, "stage2table: translator refused the source: "+reason)
+	}
+	cmd = exec.Command(os.Args[0], repo, out, "gosrc")
+	if msg, err := cmd.CombinedOutput(); err != nil {
+		reason := strings.TrimSpace(string(msg))
+		writeIfChanged(filepath.Join(out, "GoSrc.lean"), header+"namespace SJ.Generated\n\n/-- the Go → GoSem printer refused the source -/\ndef goSrcRefused : String := "+strconv.Quote(reason)+"\n\nend SJ.Generated\n")
+		fmt.Fprintln(os.Stderr, "gosrc: translator refused the source: "+reason)
 	}
 }
 
